@@ -6,9 +6,11 @@ CONSTANTS
   MinWork = 2
   Requested = {TRUE, FALSE}
   KeepWindow = 288
+  FullSpans = {}
+  WorldFilter = "any"
 INIT Init
 NEXT Next
 VIEW View0
-INVARIANTS TipIsMostWork NoFailedInChain ChainHasData FailedClosed NoBadInChain CandSane
+INVARIANTS TipIsMostWork TipIsMostWorkTrue NoFailedInChain ChainHasData FailedClosed NoBadInChain CandSane
 PROPERTY PostOK
 CHECK_DEADLOCK FALSE
